@@ -99,6 +99,9 @@ pub struct SysJ {
     /// wrap = "script": the scripts of the Vec<(Id, Msg)> clients
     #[serde(default)]
     pub scripts: Vec<Vec<ScriptJ>>,
+    /// wrap = "orl": per actor, whether it ignores even message values
+    #[serde(default)]
+    pub ignore_even: Vec<bool>,
 }
 
 #[derive(Clone, Debug, Deserialize, Serialize)]
@@ -146,6 +149,8 @@ impl MsgCodec for MsgWrapper<u16> {
 #[derive(Clone, Debug)]
 pub struct OrlScript {
     pub sends: Vec<(Id, u16)>,
+    /// ignore (no state change, no output) messages with an even value
+    pub ignore_even: bool,
 }
 impl Actor for OrlScript {
     type Msg = u16;
@@ -159,6 +164,9 @@ impl Actor for OrlScript {
         Vec::new()
     }
     fn on_msg(&self, _id: Id, state: &mut Cow<Self::State>, src: Id, msg: u16, _o: &mut Out<Self>) {
+        if self.ignore_even && msg % 2 == 0 {
+            return;
+        }
         state.to_mut().push((src, msg));
     }
 }
@@ -710,7 +718,11 @@ pub fn record_system(sysi: usize, sys: &SysJ, out: &mut dyn Write, real_counts: 
             let actors: Vec<ActorWrapper<OrlScript>> = sys
                 .scripts
                 .iter()
-                .map(|sc| ActorWrapper::with_default_timeout(OrlScript { sends: sc.iter().map(|e| (Id::from(e.dst as usize), e.msg)).collect() }))
+                .enumerate()
+                .map(|(i, sc)| ActorWrapper::with_default_timeout(OrlScript {
+                    sends: sc.iter().map(|e| (Id::from(e.dst as usize), e.msg)).collect(),
+                    ignore_even: sys.ignore_even.get(i).cloned().unwrap_or(false),
+                }))
                 .collect();
             let m = configure(sys, actors);
             let ps = |s: &StateWrapper<u16, Vec<(Id, u16)>>| {
